@@ -19,7 +19,7 @@ only = [a for a in args if not a.startswith("--")]
 if scale is None:
     scale = "1" if target_only else "0.5"
 props = [json.loads(l)["id"] for l in open(ROOT + "/properties.jsonl")]
-seeds = sorted(d for d in os.listdir(ROOT + "/seeded") if os.path.isdir(ROOT + "/seeded/" + d))
+seeds = sorted(d for d in os.listdir(ROOT + "/seeded") if re.match(r"C\d+-\d+$", d) and os.path.isdir(ROOT + "/seeded/" + d))
 out_path = ROOT + "/seeded/" + ("TARGET.json" if target_only else "MATRIX.json")
 res = json.load(open(out_path)) if os.path.exists(out_path) else {}
 def sh(c): return subprocess.run(c, shell=True, stdout=subprocess.PIPE, stderr=subprocess.STDOUT, text=True)
